@@ -480,3 +480,29 @@ func c03GenMix(g *G) {
 		emit(modes[r.Intn(3)], steps, "mix-random")
 	}
 }
+
+// c03GenRefusedOnTransport: c03.session lines whose peer sends packets the client must refuse (every refusal class of
+// DeserializeEncrypted that a frame of 8 bytes or more can carry) and conformant packets after them: the opening
+// side's entry point as the client has it, transport.ReadMsg, after a refusal.
+func c03GenRefusedOnTransport(g *G) {
+	r := g.R
+	for rep := 0; rep < g.N(1, 6); rep++ {
+		for _, class := range c03RefusalClasses {
+			if class == "empty" || class == "shortKey" || class == "noKey" {
+				continue // need another key on the client's side / a frame without content
+			}
+			c := c03NewClient(g)
+			raw := func(l int) string {
+				p := strings.Split(c03RefusedPacket(g, c, class, l), ",")
+				if b := envTok(p[2]); len(b) < 9 {
+					p[2] = hexD(append(b, make([]byte, 9-len(b))...))
+				}
+				return "r:" + p[2]
+			}
+			a, b := c03EncStep(g, c03ServerMid(g)), c03EncStep(g, c03ServerMid(g))
+			u := fmt.Sprintf("u:%d:%s", c03ServerMid(g), c03BodyTok(g, 1+r.Intn(40)))
+			g.Emit("c03.session "+c.key+" "+strings.Join([]string{raw(r.Intn(48)), a, raw(r.Intn(300)), raw(r.Intn(48)), a, b, u, raw(r.Intn(48)), u, b}, " "),
+				"session", "session-after-refused-packet", "session-refusal="+class)
+		}
+	}
+}
